@@ -134,6 +134,37 @@ def r2_construction(prog, rep: Report, im):
                  scenario="overlapping intervals are accepted")
 
 
+def interval_roles(init: Func) -> Dict[str, str]:
+    """which container of __init__ plays which part, found by what is appended to it:
+    starts / ends / values   receive the start, the end and the value of `for (start, end), value in mapping.items()`;
+    sorted / perm            receive the end and the original index of `for i, e in sorted(enumerate(<ends>), key=...)`.
+    Values are source texts of the receivers (`self._interval_starts`, `interval_ends`, ...)."""
+    roles: Dict[str, str] = {}
+    for n in walk_own(init.node):
+        if not isinstance(n, ast.For):
+            continue
+        appended = {}
+        for st in ast.walk(n):
+            if isinstance(st, ast.Call) and isinstance(st.func, ast.Attribute) and st.func.attr == "append" and len(st.args) == 1 \
+                    and isinstance(st.args[0], ast.Name):
+                appended[st.args[0].id] = src(st.func.value)
+        t = n.target
+        if isinstance(t, ast.Tuple) and len(t.elts) == 2 and isinstance(t.elts[0], ast.Tuple) and len(t.elts[0].elts) == 2 \
+                and all(isinstance(x, ast.Name) for x in t.elts[0].elts) and isinstance(t.elts[1], ast.Name):
+            a, b, v = t.elts[0].elts[0].id, t.elts[0].elts[1].id, t.elts[1].id
+            for role, nm in (("starts", a), ("ends", b), ("values", v)):
+                if nm in appended:
+                    roles[role] = appended[nm]
+        elif isinstance(t, ast.Tuple) and len(t.elts) == 2 and all(isinstance(x, ast.Name) for x in t.elts) \
+                and isinstance(n.iter, ast.Call) and src(n.iter.func) == "sorted":
+            i, e = t.elts[0].id, t.elts[1].id
+            if e in appended:
+                roles["sorted"] = appended[e]
+            if i in appended:
+                roles["perm"] = appended[i]
+    return roles
+
+
 def r3_lookup(prog, rep: Report, im):
     rep.rule("C16.R3", "lookup: closed-interval idiom (bisect_left over the sorted ends, miss if index == len, miss if key < "
              "start of the candidate; both misses raise KeyError); candidate start and value are taken through the same "
@@ -199,7 +230,8 @@ def r3_lookup(prog, rep: Report, im):
                             return
         rep.unrec("C16.R3", init, "sorted-ends", f"construction of self.{sorted_arr} and its permutation array not recognised")
         return
-    rep.check("C16.R3", init, "sorted-ends", aligned and "end" in built_from.lower(),
+    roles = interval_roles(init)
+    rep.check("C16.R3", init, "sorted-ends", aligned and built_from == roles.get("ends"),
               f"self.{sorted_arr} / self.{perm_arr} built index-aligned from sorted(enumerate({built_from}), key=end)",
               f"self.{sorted_arr} / self.{perm_arr} are not built index-aligned and ascending by interval end from {built_from}",
               scenario="the bisect runs over an unsorted or misaligned array: keys inside an interval raise KeyError or "
@@ -279,8 +311,8 @@ def r3_lookup(prog, rep: Report, im):
                 start_var, start_arr = n.targets[0].id, d[1]
     rets = returns_of(f.node)
     ret_ok = len(rets) == 1 and isinstance(rets[0].value, ast.Subscript) and src(rets[0].value.slice) == cand \
-        and dotted(rets[0].value.value) is not None and "value" in dotted(rets[0].value.value)[-1].lower()
-    rep.check("C16.R3", f, "candidate", start_var is not None and "start" in (start_arr or "").lower() and ret_ok,
+        and src(rets[0].value.value) == roles.get("values")
+    rep.check("C16.R3", f, "candidate", start_var is not None and f"{f.self_name}.{start_arr}" == roles.get("starts") and ret_ok,
               f"start = self.{start_arr}[{cand}], result = {src(rets[0].value) if rets else '?'}: same permutation index",
               "candidate start and returned value are not both subscripted with the candidate's permutation index",
               scenario="lookup returns the value of another interval")
@@ -332,18 +364,22 @@ def r4_derived(prog, rep: Report, im):
     it = prog.method(im, "__iter__")
     rep.fn(it)
     ok = False
+    roles = interval_roles(prog.method(im, "__init__"))
     for n in walk_own(it.node):
         if isinstance(n, ast.For) and isinstance(n.iter, ast.Call) and src(n.iter.func) == "zip" and len(n.iter.args) == 2 \
                 and isinstance(n.target, ast.Tuple):
-            i, e = (x.id for x in n.target.elts)
             arrs = [src(a) for a in n.iter.args]
+            names = [x.id for x in n.target.elts]
+            by_arr = dict(zip(arrs, names))
+            if roles.get("perm") not in by_arr or roles.get("sorted") not in by_arr:
+                continue
+            i, e = by_arr[roles["perm"]], by_arr[roles["sorted"]]
             ys = [y for y in ast.walk(n) if isinstance(y, ast.Yield)]
             if len(ys) == 1 and isinstance(ys[0].value, ast.Tuple) and len(ys[0].value.elts) == 2:
                 iv, val = ys[0].value.elts
                 ok = isinstance(iv, ast.Tuple) and len(iv.elts) == 2 and isinstance(iv.elts[0], ast.Subscript) \
-                    and src(iv.elts[0].slice) == i and "start" in src(iv.elts[0].value).lower() and src(iv.elts[1]) == e \
-                    and isinstance(val, ast.Subscript) and src(val.slice) == i and "value" in src(val.value).lower() \
-                    and "Indices" in arrs[0] + arrs[1] or ok
+                    and src(iv.elts[0].slice) == i and src(iv.elts[0].value) == roles.get("starts") and src(iv.elts[1]) == e \
+                    and isinstance(val, ast.Subscript) and src(val.slice) == i and src(val.value) == roles.get("values") or ok
     rep.check("C16.R4", it, "iter", ok, "yields ((start[i], end), value[i]) along the end-sorted permutation",
               "__iter__ does not yield ((start, end), value) aligned through the end-sorted permutation",
               scenario="iteration is not ascending or pairs an interval with another interval's value")
